@@ -33,6 +33,7 @@ def handleLine (line : String) : String :=
     | "alpha-reject" => handleAlphaReject fs
     | "table" => handleTable fs
     | "alphaview" => handleAlphaView fs
+    | "opview" => handleOpView fs
     | "convert" => handleConvert fs
     | "convert-rt" => handleConvertRt fs
     | "convert-reject" => handleConvertReject fs
